@@ -24,6 +24,11 @@ The model contains the code as it is, including
       (single `if`, no loop): rule `tlfWokenAcq`, ghost counter `barge`;
   D8  `Scheduler::SleepPreemptive` looks up the sleep-list bucket of a deadline that `Sleep` never inserted when
       the jittered deadline equals the current time: ghost counter `endDeref`.
+
+The flag `fixed` switches `TimedWaitHelper` to the *proposed repair of D6* (notes/C18_proposed_patches.diff):
+`while (r && _occupied) r = _queue.Wait(deadline) == Ready;` with the deadline computed once at the call.  It is not
+the code; every theorem about the code is stated for `fixed = false`, the theorems for `fixed = true` show that the
+repair is sufficient.
 -/
 namespace Yaclib.FiberSync
 
@@ -70,6 +75,7 @@ inductive Pc where
   | lockParked (k : Kont)       -- parked on the mutex queue by `Mutex::lock`
   | tlfParked (req dl : Nat)    -- `TimedMutex::TimedWaitHelper`: on the mutex queue and the sleep list
   | tlfWoken                    -- … notified: `r = true`, takes the lock next (D6: no re-check)
+  | tlfLocking (req : Nat)      -- (repaired variant only) notified: evaluates `while (r && _occupied)` again
   | cvParked                    -- `cv.wait`: mutex released, on the cv queue
   | cvTimed (req dl : Nat)      -- `cv.wait_for`: on the cv queue and the sleep list
   | sleeping (dl : Nat)         -- `this_thread::sleep_for`
@@ -79,6 +85,7 @@ inductive Pc where
 def Pc.woken : Pc → Bool
   | .locking _ => true
   | .tlfWoken => true
+  | .tlfLocking _ => true
   | _ => false
 
 def Pc.inMq : Pc → Bool
@@ -92,13 +99,14 @@ def Pc.inCq : Pc → Bool
   | _ => false
 
 /-- the state in which a fiber removed from the mutex queue by `NotifyOne` resumes -/
-def wake : Pc → Pc
+def wake (fixed : Bool) : Pc → Pc
   | .lockParked k => .locking k
-  | .tlfParked _ _ => .tlfWoken
+  | .tlfParked req _ => if fixed then .tlfLocking req else .tlfWoken
   | p => p
 
 structure State where
   timed : Bool                 -- the mutex is a `timed_mutex` (has `try_lock_for/until`)
+  fixed : Bool                 -- hypothetical: D6 repaired in `TimedWaitHelper` (see header); `false` = the code
   pc : Fid → Pc
   occupied : Bool              -- `Mutex::_occupied`
   mq : List Fid                -- `Mutex::_queue`, in list order (PushBack at the end)
@@ -111,8 +119,8 @@ structure State where
   endDeref : Nat               -- D8 hits: `_sleep_list.find(ns)` on a deadline that was never inserted
 
 /-- `n` fibers (0 … n-1) exist; the others never run -/
-def init (timed : Bool) (n : Nat) : State :=
-  { timed := timed, pc := fun g => if g < n then .idle else .done, occupied := false, mq := [], cq := [], now := 0,
+def init (timed fixed : Bool) (n : Nat) : State :=
+  { timed := timed, fixed := fixed, pc := fun g => if g < n then .idle else .done, occupied := false, mq := [], cq := [], now := 0,
     holders := [], transit := [], barge := 0, endDeref := 0 }
 
 inductive Label where
@@ -124,6 +132,7 @@ inductive Label where
   | tlfAcq (f : Fid)                             -- `f E ret try_lock_for 1`
   | tlfPark (f : Fid) (t d j : Nat)              -- `f M m park_timed 0 @t j=j` after `call try_lock_for d`
   | tlfTimeout (f : Fid) (t : Nat)               -- `f M m wake 1 @t`
+  | tlfRepark (f : Fid) (j : Nat)                -- (repaired variant) `f M m park_timed 0 j=j` after a wake-up
   | cvWait (f : Fid) (w : Option Fid)            -- unlock + notify_one + `f M cq park 0`
   | cvWaitFor (f : Fid) (w : Option Fid) (t d j : Nat)
   | cvTimeout (f : Fid) (t : Nat)                -- `f M cq wake 1 @t`
@@ -139,7 +148,7 @@ inductive Label where
 /-- `FiberQueue::NotifyOne` on the mutex queue -/
 def notifyM (s : State) : Option Fid → State
   | none => s
-  | some g => { s with mq := rm s.mq g, pc := upd s.pc g (wake (s.pc g)), transit := s.transit ++ [g] }
+  | some g => { s with mq := rm s.mq g, pc := upd s.pc g (wake s.fixed (s.pc g)), transit := s.transit ++ [g] }
 
 /-- `_occupied = true` by fiber `f` returning to its caller -/
 def acquire (s : State) (f : Fid) : State :=
@@ -159,6 +168,9 @@ def doTlfPark (s : State) (f : Fid) (t d j : Nat) : State :=
 /-- D6: `if (r) { _occupied = true; }` after the wait, whatever `_occupied` is now -/
 def doTlfWokenAcq (s : State) (f : Fid) : State :=
   { acquire s f with barge := s.barge + (if s.occupied then 1 else 0) }
+
+def doTlfRepark (s : State) (f : Fid) (req j : Nat) : State :=
+  { s with mq := s.mq ++ [f], pc := upd s.pc f (.tlfParked req (req + j)), transit := rm s.transit f }
 
 def doTlfTimeout (s : State) (f : Fid) (t : Nat) : State :=
   { s with mq := rm s.mq f, pc := upd s.pc f .idle, now := t }
@@ -205,8 +217,13 @@ inductive Step : State → Label → State → Prop where
   | tlfPark (s : State) (f : Fid) (t d j : Nat) (hk : s.timed = true) (h : s.pc f = .idle) (ho : s.occupied = true)
       (ht : s.now ≤ t) : Step s (.tlfPark f t d j) (doTlfPark s f t d j)
   /-- … woken by a notify: takes the lock (D6) -/
-  | tlfWokenAcq (s : State) (f : Fid) (hk : s.timed = true) (h : s.pc f = .tlfWoken) :
+  | tlfWokenAcq (s : State) (f : Fid) (hk : s.timed = true) (hx : s.fixed = false) (h : s.pc f = .tlfWoken) :
       Step s (.tlfAcq f) (doTlfWokenAcq s f)
+  /-- (repaired variant) woken by a notify: the loop condition is evaluated again -/
+  | tlfRecheckAcq (s : State) (f : Fid) (req : Nat) (hk : s.timed = true) (h : s.pc f = .tlfLocking req)
+      (ho : s.occupied = false) : Step s (.tlfAcq f) (acquire s f)
+  | tlfRepark (s : State) (f : Fid) (req j : Nat) (hk : s.timed = true) (h : s.pc f = .tlfLocking req)
+      (ho : s.occupied = true) : Step s (.tlfRepark f j) (doTlfRepark s f req j)
   /-- … woken by the sleep list: still on the queue, `Erase()` succeeds, returns false -/
   | tlfTimeout (s : State) (f : Fid) (t req dl : Nat) (hk : s.timed = true) (h : s.pc f = .tlfParked req dl)
       (hd : dl ≤ t) (ht : s.now ≤ t) : Step s (.tlfTimeout f t) (doTlfTimeout s f t)
@@ -226,9 +243,9 @@ inductive Step : State → Label → State → Prop where
       Step s (.sleepWake f t) { s with pc := upd s.pc f .idle, now := t }
   | finish (s : State) (f : Fid) (h : s.pc f = .idle) : Step s (.finish f) { s with pc := upd s.pc f .done }
 
-inductive Reachable (timed : Bool) (n : Nat) : State → Prop where
-  | init : Reachable timed n (init timed n)
-  | step {s l s'} : Reachable timed n s → Step s l s' → Reachable timed n s'
+inductive Reachable (timed fixed : Bool) (n : Nat) : State → Prop where
+  | init : Reachable timed fixed n (init timed fixed n)
+  | step {s l s'} : Reachable timed fixed n s → Step s l s' → Reachable timed fixed n s'
 
 /-- nothing can move, now or at any later virtual time (an idle fiber can always start an operation, a sleeper or
     timed waiter can always time out, so in such a state every fiber is `done` or blocked for good) -/
@@ -255,7 +272,14 @@ def next (s : State) : Label → Option State
       if s.timed = true then
         match s.pc f with
         | .idle => if s.occupied = false then some (acquire s f) else none
-        | .tlfWoken => some (doTlfWokenAcq s f)
+        | .tlfWoken => if s.fixed = false then some (doTlfWokenAcq s f) else none
+        | .tlfLocking _ => if s.occupied = false then some (acquire s f) else none
+        | _ => none
+      else none
+  | .tlfRepark f j =>
+      if s.timed = true then
+        match s.pc f with
+        | .tlfLocking req => if s.occupied = true then some (doTlfRepark s f req j) else none
         | _ => none
       else none
   | .tlfPark f t d j =>
@@ -321,7 +345,20 @@ theorem next_sound {s : State} {l : Label} {s' : State} (h : next s l = some s')
         · rename_i hp; split at h
           · rename_i ho; cases h; exact .tlfFast s f hk hp ho
           · cases h
-        · rename_i hp; cases h; exact .tlfWokenAcq s f hk hp
+        · rename_i hp; split at h
+          · rename_i hx; cases h; exact .tlfWokenAcq s f hk hx hp
+          · cases h
+        · rename_i req hp; split at h
+          · rename_i ho; cases h; exact .tlfRecheckAcq s f req hk hp ho
+          · cases h
+        · cases h
+      · cases h
+  | tlfRepark f j =>
+      simp only [next] at h; split at h
+      · rename_i hk; split at h
+        · rename_i req hp; split at h
+          · rename_i ho; cases h; exact .tlfRepark s f req j hk hp ho
+          · cases h
         · cases h
       · cases h
   | tlfPark f t d j =>
